@@ -212,6 +212,42 @@ SUMMARY = {
            "a grammar whose minimal depth is above 1: the initial population is short by (depth - 1)"),
  "C15-f": ("ParallelStep / ExclusiveParallelStep skip a sub-step whose weight is 0 although compute_ranges gave it a non-empty last slice",
            "a zero-weight last step and rounded shares that under-shoot ([1,1,0] with k=5 gives 4)"),
+ "C07-e": ("dSGE mutate hoists gene = genotype.dna[rkey] (the parent's list) and writes gene[rindex]: the parent is modified, the child is an unmodified clone",
+           "a mutate(r, g) call between two mappings of g"),
+ "C07-f": ("the stack representation builds its stacks once and clears them only after a successful mapping",
+           "a failed mapping (caught by the caller) followed by mapping another genotype on the same representation"),
+ "C08-e": ("the dSGE decider is built once per representation; rewind() resets cursors only for grammar nodes (same mechanism as C07-b)",
+           "two searches sharing one dSGE representation object, a grammar with a Union / plain-list symbol"),
+ "C08-f": ("ParallelEvaluator zips pending with pool.uimap (same mechanism as C13-a / C13-d)",
+           "ParallelEvaluator, a batch of several unevaluated individuals with varying evaluation times"),
+ "C13-e": ("the multi-objective default aggregate reads self.minimize at call time after evaluate() rewrote the bool into a (truthy) list",
+           "MultiObjectiveProblem(minimize=False, ...) without a user aggregate: every component is negated"),
+ "C13-f": ("ParallelEvaluator gets an in-process fast path for one-individual batches that skips the already-evaluated filter",
+           "ParallelEvaluator and a batch of exactly one individual that already has a fitness"),
+ "C14-e": ("TournamentSelection drops its up-front evaluation (same mechanism as C13-b / C13-c): uncounted evaluations stall the budget",
+           "a step composition where selection follows variation, EvaluationBudget above the population size"),
+ "C14-f": ("target budgets use math.isclose(value, target, rel_tol=tolerance): the tolerance becomes relative",
+           "a target of 0 approached but not hit exactly (never done), or a target of large magnitude (done too early)"),
+ "C16-e": ("sort_population ranks by problem.key_function(x.get_fitness()) - the fitness of the first problem the individual ever saw",
+           "individuals that carry a fitness for another problem (injected evaluated individuals, a population ranked for two problems)"),
+ "C16-f": ("SimpleGP.build_step nests the elitism-hosting ParallelStep behind the selection step of a SequenceStep",
+           "any SimpleGP run with elitism >= 1: elites are the best of the tournament winners"),
+ "C17-e": ("Individual gains a genotype-based __eq__ / __hash__; candidates.remove(winner) removes the first equal individual",
+           "two distinct individuals with equal genotypes, the later clone winning, target_size >= 2"),
+ "C17-f": ("epsilon-lexicase computes each case's median absolute deviation once from the whole population",
+           "epsilon=True and several winners or cases: the stale band lets a non-survivor win"),
+ "C18-e": ("GE ListWrapper.random_float divides by next_gene() + 1 instead of randint(1, maxsize)",
+           "a negative gene consumed by random_float (hand-made or decoded gene lists): result below min or ZeroDivisionError"),
+ "C18-f": ("pop_random implemented as choice + list.remove (removes the first equal element, not the chosen object)",
+           "a list with equal but distinct elements (equal nodes, 1 / 1.0 / True) and a draw selecting a later one"),
+ "C19-e": ("abstract() replaces the class's __gengy__ dict instead of updating it: a weight declared below it is dropped",
+           "@abstract written above @weight(w) on a nested abstract type"),
+ "C19-f": ("ProgressivelyTerminalDecider caches the grammar-weight vector per non-terminal and zips it with the (shrinking) alternatives",
+           "a zero-weight production and an earlier production that fails to synthesise (SynthesisException retry)"),
+ "C20-e": ("the CSV header comes from a list (fields + extra fields) while rows use the merged dict",
+           "an extra field that reuses an existing column name: N+M header cells, N+M-1 row cells"),
+ "C20-f": ("post_process uses best_individual([individual, incumbent]) and 'is not incumbent': a tie counts as an improvement",
+           "only_record_best_individuals=True and a distinct individual whose fitness equals the incumbent's"),
 }
 
 
